@@ -28,14 +28,16 @@ def stepBack (getU : Nat → M Nat) (it : WTIter) : WTIter × Out :=
   if it.i < it.e then ({ it with e := it.e - 1 }, Out.ofOpt ((getU (it.e - 1)).map some))
   else (it, Out.none)
 
-/-- the provided `nth`: `k` calls whose results are dropped (a panic inside one of them propagates),
-    then the call whose result is returned -/
+/-- the provided `nth` (`self.advance_by(k).ok()?; self.next()`): `k` calls whose results are dropped — a
+    panic inside one of them propagates, and the first `None` ends the method with `None` — then the
+    call whose result is returned.  (The early exit is what makes `nth(usize::MAX)` terminate.) -/
 def stepNth {σ : Type} (one : σ → σ × Out) : Nat → σ → σ × Out
   | 0, it => one it
   | k + 1, it =>
     let r := one it
     match r.2 with
     | .fault f => (r.1, .fault f)
+    | .none => (r.1, .none)
     | _ => stepNth one k r.1
 
 /-- the provided `count` / `last`: call `next` until it answers `None`; `fuel` bounds the number of calls
